@@ -500,7 +500,7 @@ def run_unit(name, prop):
 def witness_search(ob, seed):
     import registry
     fn = ob["id"].split(".")[-1]
-    cfg = registry.VERUS_WITNESS.get((ob.get("unit"), fn)) or registry.VERUS_WITNESS.get(("*", fn))
+    cfg = registry.VERUS_WITNESS.get((ob.get("unit"), fn)) or registry.VERUS_WITNESS.get(("*", fn)) or registry.VERUS_WITNESS.get((ob.get("unit"), "*"))
     if cfg is None:
         return {"reproduced": False, "detail": "no native witness search registered for %s; the failed obligation and the verifier output are in this file" % ob["id"]}
     last = None
